@@ -179,6 +179,8 @@ def decl_source(d, doc=False, derive_debug_enums=True, vis="pub "):
         args = [uty(e["n"])]
         if e["exh"] != "omitted":
             args.append("exhaustive = %s" % e["exh"])
+        if e.get("args_rev"):
+            args = args[::-1]
         out.append("#[bitbybit::bitenum(%s)]" % ", ".join(args))
         if derive_debug_enums:
             out.append("#[derive(Debug, PartialEq, Eq)]")
@@ -188,6 +190,8 @@ def decl_source(d, doc=False, derive_debug_enums=True, vis="pub "):
         for v in e["variants"]:
             if doc or v.get("doc"):
                 out.append("    /// variant")
+            for a in v.get("attrs", []):
+                out.append("    " + a)
             if v.get("cfg") == "on":
                 out.append("    #[cfg(all())]")
             elif v.get("cfg") == "off":
